@@ -1,6 +1,7 @@
 mod c01;
 mod c02;
 mod c03;
+mod c07;
 mod c09;
 mod c12;
 mod gen;
@@ -29,6 +30,8 @@ fn main() {
         "C01" => c01::run(),
         "C02" => c02::run(),
         "C03" => c03::run(),
+        "C07" => c07::run("C07"),
+        "C08" => c07::run("C08"),
         "C09" => c09::run(),
         "C12" => c12::run(),
         p => {
